@@ -364,9 +364,9 @@ func catalog(p ScenParams) *WSpec {
 		if ps := w.proc("p"); ps != nil {
 			ps.FromStr["a"][len(ps.FromStr["a"])-1] = ""
 		}
-	case "badpath": // ... invalid character in the output path
+	case "badpath", "badpath-nonascii-letter", "badpath-nonascii-digit", "badpath-glob", "badpath-dollar": // ... invalid character in the output path
 		if ps := w.proc("p"); ps != nil {
-			ps.FromStr["a"][len(ps.FromStr["a"])-1] = "b c"
+			ps.FromStr["a"][len(ps.FromStr["a"])-1] = map[string]string{"badpath": "b c", "badpath-nonascii-letter": "r\u00e9s", "badpath-nonascii-digit": "n\u0663", "badpath-glob": "b*", "badpath-dollar": "b$c"}[p.Extra]
 		}
 	case "missingtag": // ... tag placeholder without a tag
 		if ps := w.proc("p"); ps != nil {
